@@ -32,6 +32,8 @@ const (
 	kfCountSubq          = "K20-index-only-count-with-correlated-subquery"
 	kfBigMixed           = "K21-integer-float-comparison-beyond-2-53"
 	kfHashResidual       = "K22-hash-join-residual-bound-to-first-outer-row"
+	kfMixedJoin          = "K10-hash-join-integer-float-never-match"
+	kfNullRange          = "K23-typed-null-join-key-and-float-constant-range"
 )
 
 var tmpOnce sync.Once
@@ -73,12 +75,13 @@ type env struct {
 	created map[string][]sqlgen.Index // table -> secondary indexes that exist
 	pending map[string][]sqlgen.Index // table -> indexes still to be created
 	used    map[string]sqlgen.KeySet
-	empties map[string]bool // table may hold '' / x''
+	empties map[string]bool // "table.column" may hold '' / x''
 	dirty   map[string]bool // tables with secondary indexes whose rows the open transaction changed or removed
 	touched map[string]bool // tables with secondary indexes the open transaction wrote to
 	collide map[string]bool // tables where two rows written by the open transaction agree on all columns of a secondary index
 	txKeys  map[string]bool // table/index/key of the rows inserted by the open transaction
 	commits int
+	qo      sqlgen.QueryOpts // generator exclusions in force (known findings)
 }
 
 func (e *env) tracef(format string, args ...any) {
@@ -122,15 +125,15 @@ func (e *env) noteEmpties(s *sqlgen.Stmt) {
 		return !v.Null && ((v.T == sqlgen.TVarchar && v.S == "") || (v.T == sqlgen.TBlob && len(v.Bs) == 0))
 	}
 	for _, row := range s.Rows {
-		for _, v := range row {
+		for i, v := range row {
 			if isEmpty(v) {
-				e.empties[s.T.Name] = true
+				e.empties[s.T.Name+"."+s.Cols[i].Name] = true
 			}
 		}
 	}
 	for _, a := range s.Set {
 		if a.Incr == 0 && isEmpty(a.V) {
-			e.empties[s.T.Name] = true
+			e.empties[s.T.Name+"."+a.C.Name] = true
 		}
 	}
 }
@@ -159,9 +162,12 @@ func (e *env) runTx(first, keepOpen, insertOnly bool) *sqlgen.Tx {
 		} else {
 			t = e.schema.Tables[rapid.IntRange(0, len(e.schema.Tables)-1).Draw(e.rt, "stmtTable")]
 		}
-		o := sqlgen.StmtOpts{InsertOnly: first || insertOnly}
+		o := sqlgen.StmtOpts{InsertOnly: first || insertOnly, Pred: e.qo}
 		if first {
 			o.MaxRows = 14
+			if vk.Thorough() {
+				o.MaxRows = 48
+			}
 		}
 		// known findings K11/K12: a later UPDATE/DELETE on a table this transaction already wrote to
 		// could scan a secondary index with stale or shadowed transient entries (USE INDEX ON the
